@@ -3,12 +3,13 @@
 (* Trace validation for C29.  A trace is one execution of code under test  *)
 (* inside the real `with FilesystemIsolation():` in a real sandbox tree:   *)
 (*   pre     snapshot of the tree before __enter__                         *)
-(*   ev[i]   one call: arguments, outcome, snapshot before (fs0) / after   *)
-(*           (fs1), the wrapper's `_created` before / after (cr0, cr1),    *)
-(*           paths outside the modelled tree (x0, x1); the last event is   *)
-(*           __exit__ (op = "Exit", r1 = sandbox root still exists).       *)
+(*   ev[i]   one call: arguments, outcome, snapshot after the call (fs1),  *)
+(*           the wrapper's `_created` after it (cr1), paths found outside  *)
+(*           the modelled tree (x1); the last event is __exit__            *)
+(*           (op = "Exit", r1 = sandbox root still exists).                *)
 (* Snapshot entries: k kind, t content as token sequence, c interned id of *)
-(* the raw content (equal ids <=> equal bytes).                            *)
+(* the raw content (equal ids <=> equal bytes).  The state before a call   *)
+(* is the state after the previous one (variable prev).                    *)
 (*                                                                         *)
 (* Verdict clauses (C29), evaluated on the real snapshots only:            *)
 (*   PreExistingPreserved, CreatedGone   (after the Exit event; one        *)
@@ -20,18 +21,32 @@ EXTENDS FsIsolationOps, TLCExt, Json, IOUtils
 
 Traces == ndJsonDeserialize(IOEnv.TRACE_FILE)
 
-VARIABLES tid, l, cur, chk
-vars == <<tid, l, cur, chk>>
+VARIABLES tid, l, cur, chk,
+          prev,  \* observed state before cur: [fs, cr, x]
+          m      \* what the design model (code as is) predicts for cur: [fs, cr, res]
+vars == <<tid, l, cur, chk, prev, m>>
 
 NoEv == [op |-> "none"]
-Init == /\ tid \in 1..Len(Traces) /\ l = 0 /\ cur = NoEv /\ chk = 0
+Proj(f) == [x \in Paths |-> [k |-> f[x].k, t |-> f[x].t]]
+SetOf(s) == {s[i] : i \in DOMAIN s}
+After(e) == [fs |-> e.fs1, cr |-> e.cr1, x |-> e.x1]
+Observed(e) == [fs |-> Proj(e.fs1), cr |-> SetOf(e.cr1), res |-> e.res]
+Modelled(b, e) == /\ b.x = <<>> /\ e.x1 = <<>>
+                  /\ \A p \in Paths : b.fs[p].k \in {"absent", "file", "dir"}
+                  /\ InScope(e, Proj(b.fs))
+Model(b, e) == IF Modelled(b, e) THEN Eff(e, Proj(b.fs), SetOf(b.cr), AsIs) ELSE Observed(e)
+
+Init == /\ tid \in 1..Len(Traces) /\ l = 0 /\ cur = NoEv /\ chk = 0 /\ m = NoEv
+        /\ prev = [fs |-> Traces[tid].pre, cr |-> <<>>, x |-> <<>>]
 Consume == /\ l < Len(Traces[tid].ev)
            /\ l' = l + 1
            /\ cur' = Traces[tid].ev[l + 1]
+           /\ prev' = IF l = 0 THEN prev ELSE After(cur)
+           /\ m' = Model(prev', cur')
            /\ UNCHANGED <<tid, chk>>
 Check == /\ l = Len(Traces[tid].ev) /\ l > 0 /\ chk < 2
          /\ chk' = chk + 1
-         /\ UNCHANGED <<tid, l, cur>>
+         /\ UNCHANGED <<tid, l, cur, prev, m>>
 Next == Consume \/ Check
 Spec == Init /\ [][Next]_vars
 
@@ -50,18 +65,10 @@ CreatedGone ==
 
 (* ---- harness sanity ---- *)
 EndsWithExit == (chk > 0) => AtExit
-Chained == [][(l > 0 /\ l' = l + 1) => (cur'.fs0 = cur.fs1 /\ cur'.cr0 = cur.cr1)]_vars
-StartsAtPre == (l = 1) => cur.fs0 = Pre
 
-(* ---- conformance with the design model (code as it is) ---- *)
-Proj(f) == [x \in Paths |-> [k |-> f[x].k, t |-> f[x].t]]
-SetOf(s) == {s[i] : i \in DOMAIN s}
-Modelled(e) == /\ e.x0 = <<>> /\ e.x1 = <<>>
-               /\ \A p \in Paths : e.fs0[p].k \in {"absent", "file", "dir"}
-               /\ InScope(e, Proj(e.fs0))
-Model(e) == Eff(e, Proj(e.fs0), SetOf(e.cr0), AsIs)
-Applies == l > 0 /\ chk = 0 /\ Modelled(cur)
-FsFollows  == Applies => Proj(cur.fs1) = Model(cur).fs
-CrFollows  == Applies => SetOf(cur.cr1) = Model(cur).cr
-ResFollows == Applies => cur.res = Model(cur).res
+(* ---- conformance with the design model (code as it is): DRIFT only ---- *)
+Applies == l > 0 /\ chk = 0
+FsFollows  == Applies => Proj(cur.fs1) = m.fs
+CrFollows  == Applies => SetOf(cur.cr1) = m.cr
+ResFollows == Applies => cur.res = m.res
 =============================================================================
